@@ -3,24 +3,29 @@ import random
 from pathlib import Path
 
 from vlib import Check
-from checks.writer_common import writer_model, run_scenarios, writer_scenarios, exporter_scenarios
+from checks.writer_common import writer_model, run_scenarios, writer_scenarios, exporter_scenarios, reuse_scenarios
 
 
 def run(tier):
     chk = Check("C15", tier, "model_checking")
     chk.rule = ("model: Writer.tla with an always-enabled Crash: every interleaving of staging, write system calls, close and "
                 "rename for named plain/compressed outputs incl. rotation onto an existing name; traces: each scenario (writers "
-                "directly and through the exporter; plain/gzip/xz; several rotations; rotation onto an existing name; "
+                "directly and through the exporter; plain/gzip/xz; several rotations; rotation onto an existing name, onto the "
+                "name in use (a -> a) and back onto an earlier one (a -> b -> a); "
                 "destruction with and without buffered data) is first run to completion, then re-run in a child that is "
                 "killed immediately before its k-th write/writev/rename for EVERY k; TLC checks every post-crash directory; "
                 "distinct = crash points")
     chk.assumptions = ["TLC + CommunityModules", "write/writev/rename interposed in the driver executable (libc/libstdc++ "
-                       "calls resolve to it); 'complete' = byte-identical to the file of that name left by the uncrashed run, "
+                       "calls resolve to it); 'complete' = byte-identical to a file the uncrashed run made visible under that name, "
                        "which C14/C02 validate"]
     for comp in (True, False):
         writer_model(chk, f"MCWriter(Scn1, named, compressed={comp}, crash anywhere)", "Scn1", True, comp)
         writer_model(chk, f"MCWriter(Scn3, named, compressed={comp}, crash anywhere)", "Scn3", True, comp)
     writer_model(chk, "MCWriter(Scn2, named, compressed)", "Scn2", True, True)
+    for comp in (True, False):
+        writer_model(chk, f"MCWriter(Scn4: rotation onto the name in use / an earlier name, compressed={comp})", "Scn4", True, comp)
+    writer_model(chk, "MCWriter[WBug=open_before_close] (self-test, must fail)", "Scn4", True, False,
+                 bug="open_before_close", expect="violated")
     writer_model(chk, "MCWriter[WBug=rename_before_flush] (self-test, must fail)", "Scn1", True, True,
                  bug="rename_before_flush", expect="violated")
     writer_model(chk, "MCWriter[WBug=write_final_name] (self-test, must fail)", "Scn1", True, False,
@@ -31,6 +36,7 @@ def run(tier):
     for s in wscs:
         s["pre"] = [2]
     scs += wscs[: (12 if tier == "quick" else 200)]
+    scs += reuse_scenarios(rng, tier)
     m = run_scenarios(chk, "c15", scs, {"C15"}, "c15")
     chk.distinct = m["execs"]
     chk.exhaustive = True
